@@ -18,6 +18,7 @@ type PropSpec struct {
 	Pkgs   []string `json:"pkgs"`
 	Level  string   `json:"level"` // proof | other
 	Note   string   `json:"note"`
+	Claim  string   `json:"claim"`
 	Extra  []string `json:"extra_funcs"` // functions verified for this property besides those tagged with props
 	Replay string   `json:"replay"`      // optional replay driver name
 }
@@ -338,7 +339,7 @@ func cmdCheck(args []string) {
 		"machinery_problems":   problems,
 		"known_findings_printed": countPrefix(outLines, "KNOWN-FINDING"),
 		"vacuity":              fmt.Sprintf("%d cover queries unsat (must be 0); every function has an entry cover and a cover per return site", vacuous),
-		"explanation":          ps.Note,
+		"explanation":          explanation(ps),
 		"evaluations":          nObl,
 		"distinct_nontrivial":  nDis,
 		"rule":                 "one SMT query per labelled obligation (ensures per return site, requires per call site, loop invariant init/preserve, modifies frame); distinct_nontrivial counts obligations discharged as unsat",
@@ -386,4 +387,14 @@ func trimModel(m string) string {
 func fatal(format string, a ...interface{}) {
 	fmt.Fprintf(os.Stderr, "govc: "+format+"\n", a...)
 	os.Exit(2)
+}
+
+func explanation(ps *PropSpec) string {
+	if ps.Claim != "" {
+		return ps.Claim
+	}
+	if ps.Note != "" {
+		return ps.Note
+	}
+	return "obligations generated from the contracts of this property"
 }
